@@ -255,7 +255,34 @@ func (fv *FV) evalAppend(st *State, c *ast.CallExpr) Term {
 	fv.heapSet(st, key, newE)
 	fv.noteElemWrite(st, key, "(sbase "+s.S+")")
 	st.heap["alloc"] = Term{S: ite(inplace, alloc, sto(alloc, nb, "true")), Sort: arr(sInt, sBool)}
+	if fv.usesBag() {
+		// multiset fact of append (part of the trusted base): the new slice holds the old elements plus the appended ones
+		pre := st.clone()
+		pre.heap[key] = Term{S: E, Sort: fv.compSort[key]}
+		before := fv.bagTerm(pre, s, "0", "(slen "+s.S+")")
+		acc := before.S
+		for _, v := range vals {
+			acc = sto(acc, v.S, app("+", sel(acc, v.S), "1"))
+		}
+		rt := Term{S: res, Sort: sSlice, T: t}
+		after := fv.bagTerm(st, rt, "0", "(slen "+res+")")
+		fv.define(st, eq(after.S, acc))
+	}
 	return Term{S: res, Sort: sSlice, T: t}
+}
+
+// usesBag: the contract of the function under verification talks about multisets.
+func (fv *FV) usesBag() bool {
+	if fv.fc == nil || fv.pc == nil {
+		return false
+	}
+	if fv.bagUse == 0 {
+		fv.bagUse = 1
+		if strings.Contains(fv.pc.Text, "bag(") {
+			fv.bagUse = 2
+		}
+	}
+	return fv.bagUse == 2
 }
 
 func (fv *FV) appendSlice(st *State, s, src Term, t types.Type, et types.Type, pos token.Pos) Term {
@@ -314,6 +341,13 @@ func (fv *FV) evalCopy(st *State, dst, src Term, c *ast.CallExpr) Term {
 	fv.define(st, fmt.Sprintf("(forall ((%s Int)) (! (=> (or (< %s %s) (>= %s (+ %s %s))) (= (select %s %s) (select %s %s))) :pattern ((select %s %s))))", kk, kk, doff, kk, doff, n, na, kk, dA, kk, na, kk))
 	fv.heapSet(st, key, sto(E, "(sbase "+dst.S+")", na))
 	fv.noteElemWrite(st, key, "(sbase "+dst.S+")")
+	if fv.usesBag() {
+		pre := st.clone()
+		pre.heap[key] = Term{S: E, Sort: fv.compSort[key]}
+		before := fv.bagTerm(pre, src, "0", n)
+		after := fv.bagTerm(st, dst, "0", n)
+		fv.define(st, eq(after.S, before.S))
+	}
 	return Term{S: n, Sort: sInt, T: types.Typ[types.Int]}
 }
 
@@ -482,6 +516,9 @@ func (fv *FV) callByContract(st *State, fc *FuncContract, pc *PkgContracts, osig
 		fv.assume(st, not(pw))
 	}
 	for i, r := range fc.Requires {
+		if !fv.tagOK(r.Tags) {
+			continue
+		}
 		parts := fv.splitConj(env, r.Expr)
 		for j, phi := range parts {
 			nm := fmt.Sprintf("pre.%s#%d.%s", name, ord, label(r, i))
@@ -520,7 +557,9 @@ func (fv *FV) callByContract(st *State, fc *FuncContract, pc *PkgContracts, osig
 	}
 	penv := &Env{fv: fv, st: st, old: pre, names: env.names, pc: pc, results: results, roles: fc.Roles}
 	for _, e := range fc.Ensures {
-		fv.assume(st, fv.specBool(penv, e.Expr))
+		if fv.tagOK(e.Tags) {
+			fv.assume(st, fv.specBool(penv, e.Expr))
+		}
 	}
 	if fc.Trusted || fi == nil {
 		fv.assumptions["contract of "+qual(pc, name)+" is assumed, its body is not verified"+why(fc)] = true
